@@ -55,6 +55,7 @@ type Contract struct {
 	Requires    []*Clause
 	Assumes     []*Clause // assumed at entry, not checked at call sites (listed as assumptions)
 	Ensures     []*Clause
+	OnPanic     []*Clause // exceptional postconditions: hold when the function is left by a panic (after its deferred calls)
 	Preserves   []*Clause // two-state facts (entry vs now): postcondition and invariant of every loop
 	Modifies    []*Expr
 	HasModifies bool
@@ -111,7 +112,7 @@ type ContractSet struct {
 	nlines      int
 }
 
-var clauseKW = map[string]bool{"func": true, "countstores": true, "implements": true, "preserves": true, "ginv": true, "decreases": true, "assumes": true, "requires": true, "ensures": true, "modifies": true, "panics": true,
+var clauseKW = map[string]bool{"func": true, "countstores": true, "implements": true, "preserves": true, "ginv": true, "decreases": true, "assumes": true, "requires": true, "ensures": true, "onpanic": true, "modifies": true, "panics": true,
 	"loop": true, "spec": true, "axiom": true, "typed": true, "trusted": true, "pure": true, "effects": true,
 	"ufun": true, "smtaxiom": true, "rec": true, "signature": true, "records": true, "maporder": true, "sortkey_injective": true, "guarded_global": true, "guarded_by": true, "deterministic": true, "recursion": true, "immutable": true, "pkg": true, "dominates": true, "tags": true}
 
@@ -329,12 +330,14 @@ func (cs *ContractSet) loadFile(path, repo string) error {
 				return fail(fmt.Errorf("clause %q outside a func block", kw))
 			}
 			switch kw {
-			case "requires", "ensures", "assumes", "preserves":
+			case "requires", "ensures", "assumes", "preserves", "onpanic":
 				cl, err := parseClause(kw, rest, path, rc.line)
 				if err != nil {
 					return fail(err)
 				}
-				if kw == "preserves" {
+				if kw == "onpanic" {
+					cur.OnPanic = append(cur.OnPanic, cl)
+				} else if kw == "preserves" {
 					cur.Preserves = append(cur.Preserves, cl)
 					cur.Ensures = append(cur.Ensures, cl)
 				} else if kw == "assumes" {
